@@ -1,0 +1,123 @@
+//! Verification hooks. Compiled only with `--cfg agdb_verif`; the crate
+//! behaves identically without the flag.
+
+use crate::DbError;
+use crate::StorageData;
+use crate::storage::Storage;
+use crate::storage::StorageIndex;
+use std::sync::Mutex;
+
+/// A file system call about to be issued by the file storage or its
+/// write ahead log, or a step of a read.
+pub enum FsEvent<'a> {
+    WalWrite(&'a [u8]),
+    WalSetLen(u64),
+    DataWrite(u64, &'a [u8]),
+    DataSetLen(u64),
+    ReadLocked(u64, u64),
+    ReadContended(u64, u64),
+    ReadDone,
+}
+
+type Hook = Box<dyn FnMut(&FsEvent) + Send>;
+
+static FS_HOOK: Mutex<Option<Hook>> = Mutex::new(None);
+
+/// Installs (or removes) the process wide file system event callback.
+pub fn set_fs_hook(hook: Option<Hook>) {
+    *FS_HOOK.lock().unwrap_or_else(|e| e.into_inner()) = hook;
+}
+
+pub(crate) fn fs_event(event: FsEvent) {
+    // the hook is taken out while it runs so that it may itself use storages
+    let hook = FS_HOOK.lock().unwrap_or_else(|e| e.into_inner()).take();
+
+    if let Some(mut hook) = hook {
+        hook(&event);
+        let mut guard = FS_HOOK.lock().unwrap_or_else(|e| e.into_inner());
+
+        if guard.is_none() {
+            *guard = Some(hook);
+        }
+    }
+}
+
+/// Public delegating wrapper around the crate private `Storage`.
+pub struct VStorage<D: StorageData>(Storage<D>);
+
+impl<D: StorageData> VStorage<D> {
+    pub fn new(name: &str) -> Result<Self, DbError> {
+        Ok(Self(Storage::new(name)?))
+    }
+
+    pub fn with_data(data: D) -> Result<Self, DbError> {
+        Ok(Self(Storage::with_data(data)?))
+    }
+
+    pub fn transaction(&mut self) -> u64 {
+        self.0.transaction()
+    }
+
+    pub fn commit(&mut self, id: u64) -> Result<(), DbError> {
+        self.0.commit(id)
+    }
+
+    pub fn insert_bytes(&mut self, bytes: &[u8]) -> Result<u64, DbError> {
+        Ok(self.0.insert_bytes(bytes)?.0)
+    }
+
+    pub fn insert_bytes_at(&mut self, index: u64, offset: u64, bytes: &[u8]) -> Result<(), DbError> {
+        self.0.insert_bytes_at(StorageIndex(index), offset, bytes)
+    }
+
+    pub fn replace_with_bytes(&mut self, index: u64, bytes: &[u8]) -> Result<(), DbError> {
+        self.0.replace_with_bytes(StorageIndex(index), bytes)
+    }
+
+    pub fn resize_value(&mut self, index: u64, new_size: u64) -> Result<(), DbError> {
+        self.0.resize_value(StorageIndex(index), new_size)
+    }
+
+    pub fn move_at(&mut self, index: u64, from: u64, to: u64, size: u64) -> Result<(), DbError> {
+        self.0.move_at(StorageIndex(index), from, to, size)
+    }
+
+    pub fn remove(&mut self, index: u64) -> Result<(), DbError> {
+        self.0.remove(StorageIndex(index))
+    }
+
+    pub fn optimize_storage(&mut self) -> Result<(), DbError> {
+        self.0.optimize_storage()
+    }
+
+    pub fn value_as_bytes(&self, index: u64) -> Result<Vec<u8>, DbError> {
+        Ok(self.0.value_as_bytes(StorageIndex(index))?.to_vec())
+    }
+
+    pub fn value_as_bytes_at(&self, index: u64, offset: u64) -> Result<Vec<u8>, DbError> {
+        Ok(self.0.value_as_bytes_at(StorageIndex(index), offset)?.to_vec())
+    }
+
+    pub fn value_as_bytes_at_size(&self, index: u64, offset: u64, size: u64) -> Result<Vec<u8>, DbError> {
+        Ok(self
+            .0
+            .value_as_bytes_at_size(StorageIndex(index), offset, size)?
+            .to_vec())
+    }
+
+    pub fn value_size(&self, index: u64) -> Result<u64, DbError> {
+        self.0.value_size(StorageIndex(index))
+    }
+
+    pub fn len(&self) -> u64 {
+        self.0.len()
+    }
+
+    pub fn backup(&self, name: &str) -> Result<(), DbError> {
+        self.0.backup(name)
+    }
+
+    pub fn rename(&mut self, name: &str) -> Result<(), DbError> {
+        self.0.rename(name)
+    }
+}
